@@ -299,6 +299,8 @@ func runC14(c *Ctx) {
 	c.capturedMapGuard("R14.4")
 
 	// ---- R14.5 pooled buffers
+	c.ruleOpt("R14.6", "an object handed to another goroutine over a channel is not returned to a sync.Pool by the sender")
+	c.poolSharedRule("R14.6", nil)
 	c.ruleOpt("R14.5", "an object handed back to a sync.Pool (and byte slices obtained from it) is not used afterwards")
 	for _, fn := range p.Funcs {
 		allInstrs(fn, func(in ssa.Instruction) {
